@@ -41,7 +41,7 @@ RULE = ('constructor inputs: chain descriptions for distance 1..6 and EVERY cont
         'random states beyond; ancilla states absent (default 0) and explicit (all (data, ancilla) combinations for d = 2, 3); each input is built '
         'three times (as constructed / apply_modifiers() / apply_modifiers().flatten()) and executed by Stim; plus probe programs for every '
         'single-qubit gate word of length <= 2 and every CZ input pair. non-trivial: >= 1 QEC cycle with a non-zero data or ancilla value, or a '
-        'probe that contains a basis change')
+        'probe that contains a basis change' ' Directly built state containers come with full or sparse (only the ONE entries) data dictionaries, so that an ancilla index need not be a data key.')
 SUPPORTING = ['libbuild']      # LibStim_*: exporting the MODEL circuit of the constructor program (Core listing, C08 exporter model) yields rep_stim
 LEVEL_TEXT = ('Machine-checked (Coq) for EVERY description satisfying a decidable well-formedness check, every data / ancilla state and every number '
               'of cycles: executing the closed-form export under the product-state semantics yields exactly the protocol record (heralding zeros, '
